@@ -2,7 +2,9 @@
 
 use futures_core::Stream;
 
-use super::core::{AsyncWaiter, STATE_CANCELLED, STATE_CLOSED_BUFFERED, STATE_WAITING};
+use super::core::{
+  AsyncWaiter, STATE_CANCELLED, STATE_CLOSED_BUFFERED, STATE_SUCCESS_SPACE, STATE_WAITING,
+};
 use super::{AsyncReceiver, AsyncSender};
 use crate::error::{BatchSendErrorReason, SendBatchError, SendError, TrySendError};
 use crate::RecvError;
@@ -51,12 +53,16 @@ impl<'a, T: Send> SendFuture<'a, T> {
 impl<T: Send> Drop for SendFuture<'_, T> {
   fn drop(&mut self) {
     if self.is_registered {
-      let _ = self.state.compare_exchange(
+      let prior = self.state.compare_exchange(
         STATE_WAITING,
         STATE_CANCELLED,
         Ordering::SeqCst,
         Ordering::SeqCst,
       );
+      if prior == Err(STATE_SUCCESS_SPACE) {
+        // already woken for freed space that we will not use: pass the wake on
+        self.sender.shared.forward_sender_wake();
+      }
       let mut guard = self.sender.shared.internal.lock();
       let state_ptr = &self.state as *const AtomicU8;
       guard.waiting_async_senders.retain(|w| w.state != state_ptr);
@@ -207,12 +213,16 @@ impl<'a, T: Send> SendBatchFuture<'a, T> {
 impl<T: Send> Drop for SendBatchFuture<'_, T> {
   fn drop(&mut self) {
     if self.is_registered {
-      let _ = self.state.compare_exchange(
+      let prior = self.state.compare_exchange(
         STATE_WAITING,
         STATE_CANCELLED,
         Ordering::SeqCst,
         Ordering::SeqCst,
       );
+      if prior == Err(STATE_SUCCESS_SPACE) {
+        // already woken for freed space that we will not use: pass the wake on
+        self.sender.shared.forward_sender_wake();
+      }
       let mut guard = self.sender.shared.internal.lock();
       let state_ptr = &self.state as *const AtomicU8;
       guard.waiting_async_senders.retain(|w| w.state != state_ptr);
@@ -408,12 +418,16 @@ impl<'a, T: Send> SendBatchMutFuture<'a, T> {
 impl<T: Send> Drop for SendBatchMutFuture<'_, T> {
   fn drop(&mut self) {
     if self.is_registered {
-      let _ = self.state.compare_exchange(
+      let prior = self.state.compare_exchange(
         STATE_WAITING,
         STATE_CANCELLED,
         Ordering::SeqCst,
         Ordering::SeqCst,
       );
+      if prior == Err(STATE_SUCCESS_SPACE) {
+        // already woken for freed space that we will not use: pass the wake on
+        self.sender.shared.forward_sender_wake();
+      }
       let mut guard = self.sender.shared.internal.lock();
       let state_ptr = &self.state as *const AtomicU8;
       guard.waiting_async_senders.retain(|w| w.state != state_ptr);
@@ -635,12 +649,16 @@ impl<'a, T: Send> Future for RecvBatchFuture<'a, T> {
 impl<T: Send> Drop for RecvBatchFuture<'_, T> {
   fn drop(&mut self) {
     if self.is_registered {
-      let _ = self.state.compare_exchange(
+      let prior = self.state.compare_exchange(
         STATE_WAITING,
         STATE_CANCELLED,
         Ordering::SeqCst,
         Ordering::SeqCst,
       );
+      if prior == Err(STATE_SUCCESS_SPACE) {
+        // already woken for a buffered item that we will not take: pass the wake on
+        self.receiver.shared.forward_receiver_wake();
+      }
       let mut guard = self.receiver.shared.internal.lock();
       let state_ptr = &self.state as *const AtomicU8;
       guard
@@ -738,12 +756,16 @@ impl<'a, T: Send> Future for RecvBatchMutFuture<'a, T> {
 impl<T: Send> Drop for RecvBatchMutFuture<'_, T> {
   fn drop(&mut self) {
     if self.is_registered {
-      let _ = self.state.compare_exchange(
+      let prior = self.state.compare_exchange(
         STATE_WAITING,
         STATE_CANCELLED,
         Ordering::SeqCst,
         Ordering::SeqCst,
       );
+      if prior == Err(STATE_SUCCESS_SPACE) {
+        // already woken for a buffered item that we will not take: pass the wake on
+        self.receiver.shared.forward_receiver_wake();
+      }
       let mut guard = self.receiver.shared.internal.lock();
       let state_ptr = &self.state as *const AtomicU8;
       guard
@@ -833,12 +855,16 @@ impl<'a, T: Send> Future for RecvFuture<'a, T> {
 impl<T: Send> Drop for RecvFuture<'_, T> {
   fn drop(&mut self) {
     if self.is_registered {
-      let _ = self.state.compare_exchange(
+      let prior = self.state.compare_exchange(
         STATE_WAITING,
         STATE_CANCELLED,
         Ordering::SeqCst,
         Ordering::SeqCst,
       );
+      if prior == Err(STATE_SUCCESS_SPACE) {
+        // already woken for a buffered item that we will not take: pass the wake on
+        self.receiver.shared.forward_receiver_wake();
+      }
       // Eagerly unlink the waiter so the future's memory can be safely freed.
       let mut guard = self.receiver.shared.internal.lock();
       let state_ptr = &self.state as *const AtomicU8;
